@@ -7,6 +7,7 @@ every emitter x style x indent; (c) fault-derived inputs: well-formed docstrings
 seeded offsets (what a torn write leaves behind); (d) histories: doctrans applied 1..3 times to its own
 output on the simulated disk, emit∘parse applied repeatedly.
 """
+import ast
 import itertools
 import json
 import random
@@ -64,7 +65,7 @@ STYLES = ("rest", "google", "numpydoc")
 def probes():
     return ["parse_ops", "emit_ops", "roundtrip_ops", "source_parse_ops", "truncated_inputs", "doctrans_histories",
             "doctrans_second_pass", "whitespace_first_line_doc", "ops_over_10k_steps", "mutated_inputs",
-            "posonly_signature", "expression_defaults"]
+            "posonly_signature", "expression_defaults", "doctrans_other_layout"]
 
 
 class _Wall(BaseException):
@@ -451,6 +452,10 @@ def work(task):
                             handle(op)
                 else:               # (d) histories on the simulated disk
                     mod = _draw_module(rng)
+                    if rng.random() < 0.35:
+                        # the same program in another lexical layout: indentation unit, line endings, one more level
+                        mod = relayout(rng, mod)
+                        st["probes"]["doctrans_other_layout"] = st["probes"].get("doctrans_other_layout", 0) + 1
                     cmds = [[rng.choice(STYLES), rng.choice((True, False)), rng.choice((True, False))]
                             for _ in range(rng.randint(1, 3))]
                     handle({"kind": "doctrans_history", "source": mod, "cmds": cmds})
@@ -506,6 +511,35 @@ def _draw_module(rng):
             parts.append(src)
         parts.append("")
     return "\n".join(parts)
+
+
+def relayout(rng, mod):
+    """The module re-indented with another unit (1, 2, 3 or 8 spaces, a tab), optionally wrapped one level deeper
+    (`if True:` block around a definition would change the program; a class around functions is new code - so the extra
+    level is a class holding the module's functions as static-looking methods), optionally with CRLF / CR line ends."""
+    lines = mod.split("\n")
+    if rng.random() < 0.4:
+        out, inside = [], False
+        for ln in lines:
+            if ln.startswith("def ") and not inside:
+                out += ["class Holder(object):", '    """Holder."""', ""]
+                inside = True
+            if inside and (ln.startswith("class ") or (ln and not ln[0].isspace() and not ln.startswith("def "))):
+                inside = False
+            out.append(("    " + ln) if inside and ln.strip() else ln)
+        lines = out
+    unit = rng.choice(("  ", "  ", "\t", "   ", " ", "        "))
+    out = []
+    for ln in lines:
+        n = len(ln) - len(ln.lstrip(" "))
+        out.append(unit * (n // 4) + " " * (n % 4) + ln[n:] if ln.strip() else ln)
+    text = "\n".join(out)
+    try:
+        ast.parse(text)
+    except SyntaxError:
+        return mod
+    eol = rng.choice(("\n", "\n", "\n", "\r\n", "\r"))
+    return text.replace("\n", eol)
 
 
 def gen_split(sig):
